@@ -749,8 +749,10 @@ def _monitor(op, out, st):
             if not allfin or not fin(q):
                 return None
             decs = [L9.accept_exact(P, s_, y, 0.0, J) for s_, y in hist]
-            if any(a for _, a in decs) or not P['fpd'] or P['mdf'] < 0:
+            if any(a for _, a in decs) or P['mdf'] < 0:
                 return None
+            # (also without force_pos_def — repaired apply_masked: the scaling is that of the newest pair valid on
+            # J whatever its sign, and the call fails only when no pair is valid on J)
             sub = [([s_[j] for j in J], [y[j] for j in J]) for (s_, y), (dd, _) in zip(hist, decs) if dd]
             if P['curv'] or gam < 0:
                 if not sub:
@@ -762,7 +764,7 @@ def _monitor(op, out, st):
             else:
                 g0 = Fr(gam)
             if g0 < 0:
-                return None
+                bump('slbfgs_partial_negative_scaling')
             if not ok:
                 return f'StructuredLBFGSDirection::apply failed although {len(sub)} pairs are valid on J={J}'
             if rhsJ is None or not fin(rhsJ):
